@@ -119,7 +119,7 @@ def run(ck):
 
     L.exhaustive(ck, 7 if thorough else 6, "whole", WHICH, THEOREMS, rnd)
     for hk in sorted(L.HOOK_TABLES):
-        L.exhaustive(ck, 7 if thorough else 5, hk, WHICH, THEOREMS, rnd)
+        L.exhaustive(ck, 6 if thorough else 5, hk, WHICH, THEOREMS, rnd)
     if thorough:
         L.exhaustive(ck, 7, "split", WHICH, THEOREMS, rnd)
         ck.coqchk(["AV.Props.C10"])
